@@ -21,6 +21,8 @@ type unitRun struct {
 	SolveMs  int64
 }
 
+var dumpOnly bool
+
 func main() {
 	var (
 		repo    = flag.String("repo", "/repo", "repository root")
@@ -34,7 +36,12 @@ func main() {
 		noEvid  = flag.Bool("no-evidence", false, "do not write evidence")
 		overlayF = flag.String("overlay", "", "JSON file {path: replacement-file} applied as build overlay (mutant testing)")
 	)
+	flag.BoolVar(&dumpOnly, "dump", false, "only write the SMT files (implies -keep)")
 	flag.Parse()
+	if dumpOnly {
+		*keep = true
+		*noEvid = true
+	}
 	for _, kv := range goEnv() {
 		if i := strings.Index(kv, "="); i > 0 {
 			os.Setenv(kv[:i], kv[i+1:])
@@ -164,7 +171,21 @@ func runUnit(w *World, u *unitRun, tmp string, quickT, slowT int, verbose bool) 
 			return
 		}
 	}
+	for _, a := range u.Fc.Asserts {
+		if !g.assertsSeen[a.Name] {
+			u.Err = fmt.Errorf("CONTRACT-ANCHOR-LOST %s: call site %s of assert %s not found", u.Unit, a.Site, a.Name)
+			return
+		}
+	}
 	u.GenMs = time.Since(t0).Milliseconds()
+	if dumpOnly {
+		for _, ob := range g.Obligations() {
+			fname := filepath.Join(tmp, sanitizeFile(ob.Unit+"__"+ob.Name)+".smt2")
+			_ = os.WriteFile(fname, []byte(g.Query(ob)), 0o644)
+		}
+		fmt.Fprintf(os.Stderr, "%s: %d obligations dumped\n", u.Unit, len(g.Obligations()))
+		return
+	}
 	t1 := time.Now()
 	u.Results = solveAll(tmp, g, g.Obligations(), quickT, slowT)
 	u.SolveMs = time.Since(t1).Milliseconds()
